@@ -505,6 +505,16 @@ theorem memberNameB_sound (t : Schema) (n : String) (h : memberNameB t n = true)
   | none => rw [hl] at h1; cases h1
   | some prop => exact ⟨prop, rfl⟩
 
+theorem arrMemberB_sound (p : Schema) (h : arrMemberB p = true) : ArrProp p ∧ ArrFull p := by
+  simp only [arrMemberB, Bool.and_eq_true, beq_iff_eq, Option.isNone_iff_eq_none, List.isEmpty_iff, Bool.not_eq_true',
+    decide_eq_true_eq] at h
+  obtain ⟨⟨⟨⟨⟨⟨⟨⟨⟨⟨⟨⟨⟨⟨⟨⟨h1, h2⟩, h3⟩, h4⟩, h5⟩, h6⟩, h7⟩, h8⟩, h9⟩, h10⟩, h11⟩, h12⟩, h13⟩, h14⟩, h15⟩, h16⟩, h17⟩ := h
+  have hsome : ∃ it, p.node.items = some it := by
+    cases hi : p.node.items with
+    | none => rw [hi] at h8; cases h8
+    | some it => exact ⟨it, rfl⟩
+  exact ⟨⟨h1, h2, h3, h4, h5, h6, h7, hsome, flatPropB_sound _ h9⟩, ⟨h10, h11, h12, h13, h14, h15, h16, h17⟩⟩
+
 theorem treeFullB_sound : ∀ (d : Nat) (t : Schema), treeFullB d t = true → TreeFull d t := by
   intro d
   induction d with
@@ -522,37 +532,34 @@ theorem treeFullB_sound : ∀ (d : Nat) (t : Schema), treeFullB d t = true → T
       intro n hn
       obtain ⟨hm1, hm2⟩ := hmem n hn
       refine ⟨memberNameB_sound t n hm1, ?_⟩
-      rcases hm2 with hf | hf
+      rcases hm2 with (hf | hf) | hf
       · exact Or.inl (flatPropB_sound _ hf)
       · exact Or.inr (Or.inl ⟨hf.1, ih _ hf.2⟩)
+      · exact Or.inr (Or.inr (arrMemberB_sound _ hf).1)
     refine ⟨hs, ?_, hmemS⟩
     exact {
       hasNot := n1, multipleOf := n2, format := n3, keysNodup := n4
       reqDeclared := fun k hk => by simpa using n5 k hk
       free := n6
-      kws := fun p hp hno _ => by
-        rcases n7 p hp with hobj | hk
+      kws := fun p hp hno hna => by
+        have hk' : p.1 ∈ sortedKeys t.node.props := (mem_sortedKeys _ _).mpr (List.mem_map_of_mem (f := (·.1)) hp)
+        have hpo : propOf t p.1 = p.2 := by simp [propOf, alookup_of_mem p.1 p.2 t.node.props n4 hp]
+        rcases n7 p hp with (hobj | harr) | hk
         · rw [hno] at hobj; cases hobj
-        · have hk' : p.1 ∈ sortedKeys t.node.props := (mem_sortedKeys _ _).mpr (List.mem_map_of_mem (f := (·.1)) hp)
-          have hpo : propOf t p.1 = p.2 := by simp [propOf, alookup_of_mem p.1 p.2 t.node.props n4 hp]
-          rcases (hmemS p.1 hk').2 with hflat | ⟨ho, _⟩ | harr
+        · rw [hna] at harr; cases harr
+        · rcases (hmemS p.1 hk').2 with hflat | ⟨ho, _⟩ | harr
           · rw [hpo] at hflat; exact kwOKB_sound _ hflat hk
           · rw [hpo, hno] at ho; cases ho
-          · rw [hpo] at harr; exact absurd (arr_not_obj _ harr) (by
-              -- (this check admits no array members yet: every member is a scalar or an object)
-              obtain ⟨_, hm2⟩ := hmem p.1 hk'
-              rw [hpo] at hm2
-              rcases hm2 with hf | hf
-              · have := flat_not_arr _ (flatPropB_sound _ hf); rw [arr_is_arr _ harr] at this; cases this
-              · have := obj_not_arr _ hf.1; rw [arr_is_arr _ harr] at this; cases this)
+          · rw [hpo] at harr; have := arr_is_arr _ harr; rw [hna] at this; cases this
       arrs := fun p hp hya => by
         have hk' : p.1 ∈ sortedKeys t.node.props := (mem_sortedKeys _ _).mpr (List.mem_map_of_mem (f := (·.1)) hp)
         have hpo : propOf t p.1 = p.2 := by simp [propOf, alookup_of_mem p.1 p.2 t.node.props n4 hp]
         obtain ⟨_, hm2⟩ := hmem p.1 hk'
         rw [hpo] at hm2
-        rcases hm2 with hf | hf
+        rcases hm2 with (hf | hf) | hf
         · have := flat_not_arr _ (flatPropB_sound _ hf); rw [hya] at this; cases this
-        · have := obj_not_arr _ hf.1; rw [hya] at this; cases this }
+        · have := obj_not_arr _ hf.1; rw [hya] at this; cases this
+        · exact (arrMemberB_sound _ hf).2 }
 
 /-- the form the driver's count (`CERT tree=`) refers to -/
 theorem tree_end_to_end_checked (cfg : Config) (t : Schema) (id : String) (hc : stdCfgB cfg = true)
